@@ -76,6 +76,13 @@ func (self *Fork) postProcess(ctx context.Context) error {
 		}
 		noutMap := make(MarshalerMap, len(outs))
 		for k, elem := range outs {
+			if err := syntax.IsLegalUnixFilename(k); err != nil {
+				// Leave the outputs of this fork where they are.
+				errs = append(errs, fmt.Errorf(
+					"cannot create out directory %q: %v", k, err))
+				noutMap[k] = elem
+				continue
+			}
 			util.Print("Fork \"%s\":\n", k)
 			nout, err := self.processStructOuts(pipestancePath,
 				path.Join(outsPath, k), elem)
@@ -289,11 +296,7 @@ func moveOutDir(w *bytes.Buffer, value json.RawMessage,
 	case *syntax.TypedMapType:
 		keys := make([]string, 0, len(valueMap))
 		for k := range valueMap {
-			if err := syntax.IsLegalUnixFilename(k); err != nil {
-				util.PrintError(err, "cannot create out directory %q", k)
-			} else {
-				keys = append(keys, k)
-			}
+			keys = append(keys, k)
 		}
 		sort.Strings(keys)
 		p := syntax.StructMember{
@@ -302,6 +305,14 @@ func moveOutDir(w *bytes.Buffer, value json.RawMessage,
 		p.CacheIsFile(t.Elem)
 		for i, k := range keys {
 			writeKey(i, k)
+			if err := syntax.IsLegalUnixFilename(k); err != nil {
+				util.PrintError(err, "cannot create out directory %q", k)
+				// Leave the files for this key where they are.
+				if _, err := w.Write(valueMap[k]); err != nil {
+					errs = append(errs, err)
+				}
+				continue
+			}
 			p.Id = k
 			if err := moveOutFiles(w,
 				&p,
